@@ -12,10 +12,33 @@ DROP = re.compile(r"(Iterator::(nth|take|skip|step_by|take_while|skip_while|find
                   r"|Iterator>::next$|Iterator>::nth$|slice::<impl \[T\]>::(first|last|split_first|split_last)$|::first_key_value$|::last_key_value$|::pop_first$|::pop_last$)")
 
 
+ROOTS = ["builders::tx_builder::fake_full_tx", "builders::tx_builder::count_needed_vkeys", "builders::tx_builder::min_fee", "TransactionBuilder::get_witness_set",
+         "TransactionBuilder::calc_script_data_hash", "TransactionBuilder::build_and_size", "TransactionBuilder::get_total_ref_scripts_size", "TransactionBuilder::get_reference_inputs"]
+
+
+def scope(F):
+    """builder functions reachable from the size / fee / witness-set / body entry points (collectors), closures included"""
+    seen, work = set(), []
+    for r in ROOTS:
+        work += F.by_key(r)
+    while work:
+        f = work.pop()
+        if f in seen:
+            continue
+        seen.add(f)
+        for sub in [f] + [c for c in F.fns if c.startswith(f + "::{closure")]:
+            seen.add(sub)
+            for c in F.calls(sub):
+                if c.to in F.fns and c.to not in seen:
+                    work.append(c.to)
+    return seen
+
+
 def sites(F, prefix="src/builders/"):
     out = {}
+    sc = scope(F)
     for fid, fn in F.fns.items():
-        if "/tests/" in fn["file"] or F.is_derived(fid) or not fn["file"].startswith(prefix):
+        if "/tests/" in fn["file"] or F.is_derived(fid) or not fn["file"].startswith(prefix) or fid not in sc:
             continue
         base = F.key(fid.split("::{closure")[0])
         for c in F.calls(fid):
@@ -44,4 +67,4 @@ def check(rep, F, prop=None):
             rep.allow("PARTIAL-iter", len(locs))
             continue
         rep.violation("PARTIAL-iter", "%s|%s" % (fn, ad), "%s applies `%s` to an iterator (%d site(s), %d audited): only part of the collection is visited - elements (signers, witnesses, reference scripts, amounts) of the rest are silently ignored" % (fn, ad, len(locs), e["count"] if e else 0), {"function": fn, "adaptor": ad})
-    rep.floor("element-dropping adaptor sites inventoried in builder code", 20, n)
+    rep.floor("element-dropping adaptor sites inventoried in collector code (closure of the size / fee / witness entry points)", 12, n)
